@@ -311,6 +311,63 @@ Example embedded_narop_example :
   = Lift.SFin (Lift.ONum (I 1) :: Lift.ONum (I 6) :: Lift.ONum (I 3) :: nil)%list.
 Proof. vm_compute. reflexivity. Qed.
 
+(* --- keyword calls: Function.__call__ filtering; one argument record for every operand function --- *)
+(* Function.__call__ hands the wrapped function args[:nargs] and only the keywords it declares *)
+Theorem function_call_filters :
+  forall (p : Lift.prim) (pos : list num) (kw : list (nat * num)),
+  Lift.prim_call p (pos, kw)
+  = Lift.prim_call p (List.firstn (length (Lift.p_params p)) pos,
+                      List.filter (fun e : nat * num => Lift.declares (Lift.p_params p) (fst e)) kw).
+Proof. exact C15_lift.prim_call_filters. Qed.
+Theorem function_call_ignores_undeclared_keyword :
+  forall (p : Lift.prim) (pos : list num) (kw : list (nat * num)) (n : nat) (v : num),
+  Lift.declares (Lift.p_params p) n = false ->
+  Lift.prim_call p (pos, cons (n, v) kw) = Lift.prim_call p (pos, kw).
+Proof. exact C15_lift.prim_call_ignores_undeclared. Qed.
+Theorem function_call_ignores_surplus_positional :
+  forall (p : Lift.prim) (pos extra : list num) (kw : list (nat * num)),
+  (length (Lift.p_params p) <= length pos)%nat ->
+  Lift.prim_call p (app pos extra, kw) = Lift.prim_call p (pos, kw).
+Proof. exact C15_lift.prim_call_ignores_surplus. Qed.
+
+(* (a op b)(args, kw) = op (a(args, kw)) (b(args, kw)) for composed function objects a, b: every leaf
+   primitive is called with the same argument record c (and filters it for itself) *)
+Theorem keyword_call_binop :
+  forall (prims : list Lift.prim) (c : Lift.callargs) (fx : bool) (g : Lift.op2) (a b : Lift.obj),
+  C15_lift.nf a = true -> C15_lift.nf b = true -> (Lift.is_fn a || Lift.is_fn b)%bool = true ->
+  Lift.callv (Lift.env_of prims c) fx (Lift.apply_binop g a b)
+  = Lift.ONum (snd g (C15_lift.fval (Lift.env_of prims c) a) (C15_lift.fval (Lift.env_of prims c) b))
+  /\ (forall id : nat, C15_lift.fval (Lift.env_of prims c) (Lift.OFn id)
+        = match List.nth_error prims id with Some p => Lift.prim_call p c | None => NErr end).
+Proof. exact C15_lift.keyword_call_binop. Qed.
+Theorem keyword_call_unop :
+  forall (prims : list Lift.prim) (c : Lift.callargs) (fx : bool) (g : Lift.op1) (a : Lift.obj),
+  C15_lift.nf a = true -> Lift.is_fn a = true ->
+  Lift.callv (Lift.env_of prims c) fx (Lift.apply_unop g a) = Lift.ONum (snd g (C15_lift.fval (Lift.env_of prims c) a)).
+Proof. exact C15_lift.keyword_call_unop. Qed.
+(* n-ary: the receiver AND every extra operand function see the same argument record *)
+Theorem keyword_call_narop :
+  forall (prims : list Lift.prim) (c : Lift.callargs) (g : Lift.op3) (a : Lift.obj) (args : list Lift.obj)
+         (x : num) (ys : list num),
+  Lift.is_fn a = true -> Lift.call (Lift.env_of prims c) true a = Lift.ONum x ->
+  List.Forall2 (fun (o : Lift.obj) (y : num) => Lift.callv (Lift.env_of prims c) true o = Lift.ONum y /\ Lift.is_err o = false) args ys ->
+  Lift.call (Lift.env_of prims c) true (Lift.apply_narop g a args) = Lift.ONum (snd g x ys).
+Proof. exact C15_lift.keyword_call_narop. Qed.
+
+(* sig = lambda x, depth=1: 0 + 1*x + 1*depth ; lo = lambda depth=1: 0 + (-1)*depth ; hi = lambda depth=1: 0 + 1*depth
+   sig.clip(lo, hi)(x=-5, depth=2): sig -> -3, lo -> -2, hi -> 2, clip -> -2 (lo and hi must see depth=2;
+   with their defaults they would give -1) *)
+Example keyword_call_example :
+  let sig := {| Lift.p_params := cons (0%nat, None) (cons (1%nat, Some (I 1)) nil);
+                Lift.p_coef := cons (I 1) (cons (I 1) nil); Lift.p_const := I 0 |} in
+  let lo := {| Lift.p_params := cons (1%nat, Some (I 1)) nil; Lift.p_coef := cons (I (-1)) nil; Lift.p_const := I 0 |} in
+  let hi := {| Lift.p_params := cons (1%nat, Some (I 1)) nil; Lift.p_coef := cons (I 1) nil; Lift.p_const := I 0 |} in
+  let c : Lift.callargs := (nil, cons (0%nat, I (-5)) (cons (1%nat, I 2) (cons (2%nat, I 7) nil))) in
+  Lift.call (Lift.env_of (cons sig (cons lo (cons hi nil))) c) true
+    (Lift.apply_narop (Lift.SDec, C15_lift.clip_demo) (Lift.OFn 0) (cons (Lift.OFn 1) (cons (Lift.OFn 2) nil)))
+  = Lift.ONum (I (-2)).
+Proof. vm_compute. reflexivity. Qed.
+
 (* non-vacuity: the hypotheses are met by concrete arguments and the kernels compute *)
 Example wrap_example : canon (py_wrap (F (7 # 2)) (F (1 # 2)) (F (5 # 2))) = (1, 3, 2)%Z.
 Proof. vm_compute. reflexivity. Qed.
